@@ -28,6 +28,8 @@ def seeded():
     out = {}
     for d in sorted(glob.glob(os.path.join(ROOT, "seeded", "C*-*"))):
         sid = os.path.basename(d)
+        if not os.path.isdir(d):
+            continue
         try:
             m = json.load(open(os.path.join(d, "meta.json")))
         except Exception:
@@ -105,6 +107,33 @@ def seeded_section(sd):
     return "\n".join(out) + "\n"
 
 
+def harmless_section():
+    rows = []
+    for d in sorted(glob.glob(os.path.join(ROOT, "seeded", "harmless", "C*-*"))):
+        try:
+            m = json.load(open(os.path.join(d, "meta.json")))
+        except Exception:
+            continue
+        ev = m.get("evaluation", {})
+        rows.append((os.path.basename(d), first_sentence(m.get("summary", ""), 260), ev.get("silent"), ev.get("tail", "")))
+    if not rows:
+        return ""
+    out = ["### 9.1 Harmless changes: the checks must stay silent\n",
+           "The converse test. Independent sub-agents (again seeing only property texts and a scratch worktree) wrote two "
+           "behaviour-preserving refactorings per property in the anchored code (renamed locals, restructured loops and "
+           "conditionals, `.get()` for equivalent try/except, reordered independent statements, changed message texts, local memos "
+           "…), each verified by them against the baseline and the upstream tests run with the stand-in. `harness/refactest.py` "
+           "applies each to a scratch copy of the sources and runs the property's quick check against it: the expected verdict is "
+           "exit 0 without a VIOLATION line. Kept under `seeded/harmless/<id>/`.\n",
+           "| change | what was refactored | check silent |", "|---|---|---|"]
+    for k, summ, silent, tail in rows:
+        out.append("| %s | %s | %s |" % (k, summ.replace("|", "\\|"), "yes" if silent else "**NO** — " + tail.replace("|", "\\|")[:160]))
+    n = sum(1 for r in rows if r[2])
+    out.append("")
+    out.append("%d of %d harmless changes leave the checks silent.\n" % (n, len(rows)))
+    return "\n".join(out) + "\n"
+
+
 def main():
     sd = seeded()
     parts = [rd("00-front.md"), rd("05-sp.md")]
@@ -119,6 +148,7 @@ def main():
     parts.append(rd("80-falsealarms.md"))
     parts.append("---------------------------------------------------------------------------------\n")
     parts.append(seeded_section(sd))
+    parts.append(harmless_section())
     parts.append("---------------------------------------------------------------------------------\n")
     parts.append(rd("95-limits.md"))
     with open(os.path.join(ROOT, "DESIGN.md"), "w") as f:
